@@ -94,17 +94,22 @@ def elementCheck (ctx : Ctx R) (res res2 : Pt R) : Option Nat :=
     if d ≠ 1 then some d else none
   else none
 
-/-- the `loop` of `element`, entered with `bit` (the index of the bit above the next one to read):
+/-- the `loop` of `element` over abstract operations (`dbl` = `self.double`, `addG` = `self.add_g`, `check` =
+the test after the doubling), entered with `bit` (the index of the bit above the next one to read):
 `bit -= 1` underflows for `bit = 0` (never: the loop is entered with `bit > 0` and left at `bit == 0`). -/
-def elementLoop (ctx : Ctx R) (a b gx gy : R) (seed : Nat) : Nat → Pt R → Res (Pt R)
+def ladder {P : Type} (dbl addG : P → P) (check : P → P → Option Nat) (seed : Nat) : Nat → P → Res P
   | 0, _ => .panic
   | bit + 1, res =>
-    let res2 := suyamaDouble a b gx gy res
-    match elementCheck ctx res res2 with
+    let res2 := dbl res
+    match check res res2 with
     | some d => .err d
     | none =>
-      let res := if (seed >>> bit) % 2 = 1 then suyamaAddG a b gx gy res2 else res2
-      if bit = 0 then .ok res else elementLoop ctx a b gx gy seed bit res
+      let res := if (seed >>> bit) % 2 = 1 then addG res2 else res2
+      if bit = 0 then .ok res else ladder dbl addG check seed bit res
+
+/-- the `loop` of `element` on the translated formulas -/
+def elementLoop (ctx : Ctx R) (a b gx gy : R) (seed : Nat) : Nat → Pt R → Res (Pt R) :=
+  ladder (suyamaDouble a b gx gy) (suyamaAddG a b gx gy) (elementCheck ctx) seed
 
 /-- `Suyama11::element(seed)` for a `u32` seed: `assert!(seed > 1)`, `bit = bitlen - 1`,
 `assert!(bit > 0)`, left-to-right double-and-add from the generator `(gx, gy, 1)`. -/
